@@ -109,8 +109,9 @@ PROPS = {
     "C12": dict(
         engine="TestC12",
         extract="typegraph",
-        lean_modules=["S2S.Props.C12"],
-        required_theorems=["C12_paths_translated_of_covers", "C12_current_tree_covers", "C12_every_path_translated", "C12_shortcuts_never_change_the_result"],
+        lean_modules=["S2S.Props.C12", "S2S.Props.C12V"],
+        required_theorems=["C12_paths_translated_of_covers", "C12_current_tree_covers", "C12_every_path_translated", "C12_shortcuts_never_change_the_result",
+                           "C12_leaf_values_translated", "C12_every_realised_leaf_translated"],
         rule="(1) translator: the Go type graph of all 308 request/response types of both services as the reflective visitor walks it (981 struct types), the "
              "namespace-name oracle bit per field from the proto tags, and the code's tables read from the running binary are regenerated into Lean and the "
              "coverage obligations re-checked by kernel evaluation; (2) correspondence: for every root type, structural paths to namespace-name leaves (every "
@@ -118,8 +119,13 @@ PROPS = {
              "messages by reflection (events serialized into real history blobs with consistent event types), run through the real NamespaceNameTranslator, "
              "and the leaf outcome compared with the Lean path-level visitor model over the regenerated graph; (3) monitor: every message, plus random "
              "fully-populated messages of every root type (names incl. prefixes/substrings/chains a->b->c/empty), is compared with an independent "
-             "descriptor-driven reference translation (proto.Equal after canonical re-serialization of event blobs). Distinct by path.",
-        assumptions=["namespace-name oracle: singular string fields whose proto name is `namespace` or ends in `_namespace`, and NamespaceInfo.name",
+             "descriptor-driven reference translation (proto.Equal after canonical re-serialization of event blobs). Distinct by path. "
+             "(4) VALUE level (ops `valns`, go/eng/valtree_test.go): random filled messages of every root type, path-built messages with batch context and "
+             "hand-made corner cases are dumped as one-line trees by reflection in type-graph field order (blobs decoded with the real serializer), run through "
+             "the real NamespaceNameTranslator, dumped again (+ matched, + which blob objects were replaced) and compared with the Lean value-level model "
+             "S2S/Model/TranslateVal.lean run by the driver on the same tree; C12V connects that model to the path model.",
+        assumptions=["value level: messages carry no unknown fields (visit.Values' seen-set keys nil slices/maps by pointer 0; the message's own nil unknownFields is visited first, so later nil values never reach the callback); blobs are proto3-encoded; values are trees (no shared pointers)",
+                     "namespace-name oracle: singular string fields whose proto name is `namespace` or ends in `_namespace`, and NamespaceInfo.name",
                      "DataBlob fields not holding history events are a reviewed list in the translator (AddTasksRequest.Task.blob, HistoryTask.blob, Chasm*.data, ReplicationTask.data); any new DataBlob field fails the obligation until reviewed",
                      "protobuf codecs / serialization.Serializer / github.com/keilerkonzept/visit are modelled (universal descent into exported fields), validated by the correspondence"],
         timeout={"quick": 900, "thorough": 3600},
@@ -127,26 +133,39 @@ PROPS = {
     "C13": dict(
         engine="TestC13",
         extract="typegraph",
-        lean_modules=["S2S.Props.C13"],
-        required_theorems=["C13_unmapped_untouched", "C13_single_application", "C13_bimap_rejects_exactly_non_injective", "C13_roundtrip", "C13_direction_roundtrip", "C13_only_namespace_fields_assigned"],
+        lean_modules=["S2S.Props.C13", "S2S.Props.C13V"],
+        required_theorems=["C13_unmapped_untouched", "C13_single_application", "C13_bimap_rejects_exactly_non_injective", "C13_roundtrip", "C13_direction_roundtrip", "C13_only_namespace_fields_assigned",
+                           "C13_only_names_change", "C13_nothing_to_map_is_identity", "C13_unmatched_is_unchanged", "C13_round_trip", "C13_sa_round_trip", "C13_round_trip_needs_nonempty"],
         rule="NewStaticBiMap on EVERY pair list up to length 3 (quick) / 4 (thorough) over a 4-name alphabet (all non-injective lists included) + start-up of real "
              "cluster connections with (non-)injective mappings; exact-match lookups and round trips through the real translator for names incl. prefixes, "
              "substrings, case variants, empty, chains a->b,b->c and swaps; direction observed end to end through a running proxy pair on both servers with and "
              "without the bypass header (name seen by the backend / by the caller); random fully-populated messages of every root type translated and translated "
              "back with the inverse (must be identical). 'touches nothing else' is additionally monitored in C12's engine against the independent reference. "
-             "Non-trivial = non-injective list, or a lookup/direction case; distinct by op.",
-        assumptions=["a name that is an unmapped image of the mapping (in ran m but not dom m) cannot round-trip: excluded explicitly by the theorem's hypothesis and exercised (reported) by the engine"],
+             "Non-trivial = non-injective list, or a lookup/direction case; distinct by op. VALUE level (ops `valns` / `valsa`, go/eng/valtree_test.go): corner "
+             "cases (identity entries, chains, swaps, the empty name as source/target, look-alike names, nil vs empty maps, nil SearchAttributes, empty/zero-event/"
+             "nil blobs, skippable events with (empty) link namespaces, History vs blob batches, ListWorkflowExecutionsResponse, undecodable blob, unhandled "
+             "SearchAttributes types, colliding keys) and random filled messages of every root type (a mapping with a swap; a mapping that maps nothing; the "
+             "overlapping search-attribute mapping) through the REAL translators, whole result tree + matched + replaced-blob marks compared with the Lean "
+             "value-level model, for which C13V proves only-names-change / identity / round trip.",
+        assumptions=["value level: messages carry no unknown fields; blobs are proto3-encoded; values are trees (see C12)",
+                     "C13_round_trip needs a mapping that does not involve the empty name: with a -> \"\" a link namespace inside a skippable event is translated to \"\" and is then invisible to the shortcut's Links rule on the way back (Lean witness C13_round_trip_needs_nonempty; reproduced on the real code by the valns corner cases)",
+                     "a name that is an unmapped image of the mapping (in ran m but not dom m) cannot round-trip: excluded explicitly by the theorem's hypothesis and exercised (reported) by the engine"],
         timeout={"quick": 900, "thorough": 3600},
     ),
     "C14": dict(
         engine="TestC14",
         extract="typegraph",
-        lean_modules=["S2S.Props.C14"],
-        required_theorems=["C14_keys_renamed_values_untouched", "C14_no_key_lost", "C14_workflow_service_excluded", "C14_every_container_found"],
+        lean_modules=["S2S.Props.C14", "S2S.Props.C14V"],
+        required_theorems=["C14_keys_renamed_values_untouched", "C14_no_key_lost", "C14_workflow_service_excluded", "C14_every_container_found",
+                           "C14_container_keys", "C14_container_values", "C14_unmatched_is_unchanged", "C14_collision_means_two_entries_one_key", "C14_no_collision_for_bimap"],
         rule="every structural path to a search-attributes container (typed SearchAttributes and bare map<string,Payload>) in AdminService messages incl. inside "
              "history-event blobs, built as real messages with random key sets that do not collide with mapping targets, through the real "
              "NewSearchAttributeTranslator: keys compared with the model, payload bytes checked untouched, whole message compared with the reference; the method "
-             "filter for all 154 methods; random AdminService messages vs the reference. Distinct by path.",
+             "filter for all 154 methods; random AdminService messages vs the reference. Distinct by path. VALUE level (ops `valsa`, go/eng/valtree_test.go): "
+             "corner cases (typed container / bare map / inside blobs / History, nil vs empty maps, nil SearchAttributes, identity entries, chains, swaps, "
+             "COLLIDING keys, unhandled types), random AdminService messages and path-built messages with batch context through the real "
+             "NewSearchAttributeTranslator; whole result tree + matched (or `error` / `collision` = a rebuilt map lost an entry) compared with the Lean "
+             "value-level model, for which C14V proves the simultaneous-renaming law.",
         assumptions=["single-namespace mapping (the code's documented limitation)", "fields named SearchAttributes of other types (AddSearchAttributesRequest, RemoveSearchAttributesRequest) make the visitor return an error that is only logged: counted, outside the property"],
         timeout={"quick": 900, "thorough": 3600},
     ),
